@@ -201,9 +201,9 @@ func checkC19(e *Engine, r *Report) {
 	evalObj := e.objs(pkgExpr, "Expression.Evaluate")
 	allowedSites := map[string]string{
 		"(*" + short(pkgCfgBL) + ".ContainerMatchConfig).MatchContainer": "MatchExpressions of the balloons configuration, validated by Config.Validate before the configuration is delivered",
-		"(*" + short(pkgBL) + ".balloons).chooseBalloonDef":                "MatchExpressions of the balloons configuration, validated by Config.Validate before the configuration is delivered",
-		"(*" + short(pkgCA) + ".cache).EvaluateAffinity":                   "Match of an affinity: user-supplied ones are validated in parseFull, built-in ones are constructed with the right arity",
-		"(*" + short(pkgCA) + ".cache).FilterScope":                        "Scope of an affinity: user-supplied ones are validated in parseFull, built-in ones are constructed with the right arity",
+		"(*" + short(pkgBL) + ".balloons).chooseBalloonDef":              "MatchExpressions of the balloons configuration, validated by Config.Validate before the configuration is delivered",
+		"(*" + short(pkgCA) + ".cache).EvaluateAffinity":                 "Match of an affinity: user-supplied ones are validated in parseFull, built-in ones are constructed with the right arity",
+		"(*" + short(pkgCA) + ".cache).FilterScope":                      "Scope of an affinity: user-supplied ones are validated in parseFull, built-in ones are constructed with the right arity",
 	}
 	ns := 0
 	for _, fn := range e.RepoFuncs {
